@@ -35,7 +35,15 @@ pub mod shim {
         pub unsafe fn free_memory(self) {
             event(FREE_MEMORY);
         }
+        pub fn finalize_definitions(&mut self) -> Result<(), ()> {
+            Ok(())
+        }
     }
+    pub struct FunctionInfo;
+    pub struct TypeInfo;
+    pub trait OptCtx {}
+    pub struct NoCtx;
+    impl OptCtx for NoCtx {}
     pub struct ConstantValue;
     impl Drop for ConstantValue {
         fn drop(&mut self) {
@@ -59,7 +67,7 @@ pub mod shim {
 }
 
 pub mod codegen {
-    use crate::shim::{ConstantValue, DropFn, HashMap, JITModule, ResolvedName};
+    use crate::shim::{ConstantValue, DropFn, FunctionInfo, HashMap, JITModule, NoCtx, OptCtx, ResolvedName, TypeInfo};
     use std::{alloc::Layout, any::Any, fmt::Debug, marker::PhantomData, mem::ManuallyDrop, sync::Arc};
 
     /*@STRUCT_MODULEDATA@*/
@@ -81,6 +89,21 @@ pub mod codegen {
     /*@IMPL_DROP_ROTOCONSTANT@*/
 
     /*@STRUCT_TYPEDFUNC@*/
+
+    /*@STRUCT_MODULE@*/
+
+    /// stand-in for ModuleBuilder: the fields `finalize` moves into the Module
+    pub struct ModuleBuilder {
+        pub functions: HashMap<String, FunctionInfo>,
+        pub inner: JITModule,
+        pub runtime_constants: HashMap<ResolvedName, ConstantValue>,
+        pub roto_constants: HashMap<ResolvedName, RotoConstant>,
+        pub registered_fns: Vec<Arc<Box<dyn Any>>>,
+        pub type_info: TypeInfo,
+    }
+    impl ModuleBuilder {
+        /*@FN_FINALIZE@*/
+    }
 
     include!("harness.rs");
 }
